@@ -39,7 +39,7 @@ func (c *Case) Pretty() string {
 			switch e.Op {
 			case "sset", "gset":
 				fmt.Fprintf(&b, " %s[%q]=%s;", e.Op, e.Key, prettyV(e.V))
-			case "sinc", "ginc":
+			case "sinc", "ginc", "sdel", "gdel":
 				fmt.Fprintf(&b, " %s[%q];", e.Op, e.Key)
 			default:
 				fmt.Fprintf(&b, " %s[%q]+=%d;", e.Op, e.Key, e.N)
